@@ -58,6 +58,7 @@ class StructParam(Parameter):
                            BoolType(), default=False)
 
     insideRW = 0  # counter for avoiding multiple superfluous updates
+    insideSync = 0  # counter for avoiding recursion when syncing struct and members
 
     def __init__(self, description=None, paramdict=None, prefix='', *, datatype=None, readonly=False, **kwds):
         """create a struct parameter together with individual parameters
@@ -151,22 +152,32 @@ class StructParam(Parameter):
         """register callbacks for consistency"""
         super().finish(modobj)
         if modobj:
+            # keep struct and members consistent in both directions, whatever is updated
+            # (insideSync avoids the callbacks triggering each other)
 
-            if self.hasStructRW:
-                def cb(value, modobj=modobj, structparam=self):
-                    for membername, param in structparam.paramdict.items():
-                        setattr(modobj, param.name, value[membername])
+            def struct_cb(value, modobj=modobj, structparam=self):
+                if not structparam.insideSync:
+                    structparam.insideSync += 1  # guarded by modobj.updateLock
+                    try:
+                        for membername, param in structparam.paramdict.items():
+                            setattr(modobj, param.name, value[membername])
+                    finally:
+                        structparam.insideSync -= 1
 
-                modobj.addCallback(self.name, cb)
-            else:
-                for membername, param in self.paramdict.items():
-                    def cb(value, modobj=modobj, structparam=self, membername=membername):
-                        if not structparam.insideRW:
+            modobj.addCallback(self.name, struct_cb)
+
+            for membername, param in self.paramdict.items():
+                def cb(value, modobj=modobj, structparam=self, membername=membername):
+                    if not (structparam.insideRW or structparam.insideSync):
+                        structparam.insideSync += 1
+                        try:
                             prev = dict(getattr(modobj, structparam.name))
                             prev[membername] = value
                             setattr(modobj, structparam.name, prev)
+                        finally:
+                            structparam.insideSync -= 1
 
-                    modobj.addCallback(param.name, cb)
+                modobj.addCallback(param.name, cb)
 
 
 class FloatEnumParam(Parameter):
